@@ -136,11 +136,21 @@ class Run(object):
                 self.value[l] = sym
 
     # -- observation ------------------------------------------------------------------------------------------------
+    def attr(self, name):
+        """an attribute of the object under test as a client reads it (plain attribute, property, class default)"""
+        try:
+            return self.ip.get_attr(self.o, name, None)
+        except Raised:
+            return NONE
+
     def table_cells(self, attr):
-        t = self.o.attrs.get(attr)
+        t = self.attr(attr)
         if not isinstance(t, Obj):
             raise Unsupported('attribute %s is %r' % (attr, t))
-        v = t.attrs.get('values')
+        try:
+            v = self.ip.get_attr(t, 'values', None)
+        except Raised:
+            v = None
         if not (isinstance(v, Obj) and v.cls == 'dict'):
             raise Unsupported('%s does not keep its entries in a dict named values' % attr)
         out = {}
@@ -153,7 +163,7 @@ class Run(object):
         return out
 
     def matrix_cell(self, attr, a, b):
-        ma = self.o.attrs.get(attr)
+        ma = self.attr(attr)
         if not (isinstance(ma, Obj) and ma.isa('MatrixArray')):
             raise Unsupported('attribute %s is %r, not a MatrixArray' % (attr, ma))
         data = ma.attrs.get('data')
@@ -210,7 +220,7 @@ def _density_after(prog, labels, h):
         want = val.get(l)
         if (want is None) != (got is None) or (want is not None and not same(got, want)):
             bad.append('density[%r] is %s, expected %s' % (l, show(got), show(want)))
-    tot = r.term(r.o.attrs.get('total', NONE))
+    tot = r.term(r.attr('total'))
     want_tot = N.NF.const(0)
     for l in labels:
         if l in val:
@@ -364,7 +374,7 @@ def rule_total_no_stale_operand(ctx, rule='R15.c'):
             for v_ in r.value.values():
                 current |= set(v_.symbols())
             overwritten = {'v%d' % i for i in range(1, r.n + 1)} - current
-            tot = r.term(r.o.attrs.get('total', NONE))
+            tot = r.term(r.attr('total'))
             if tot is None or P.is_pw(tot):
                 raise Unsupported('total is %s' % show(tot))
             ins = N.opaque_inputs(tot)
